@@ -251,6 +251,11 @@ def run(prog, check):
     check.ob('C18.R5', 'gl_book::builders-scanned', True, 'sfc_models/gl_book', '%d literal full names found in builder equation text' % n5, '')
     check.floor('C18.R1', 40)
     check.floor('C18.R2', 6)
+    # registered cash flows are deferred, never filtered: the registering method records every call
+    from ._common import registration_always_recorded
+    for rf_, ok_, why_ in registration_always_recorded(prog, 'RegisteredCashFlows', 3):
+        check.saw(rf_)
+        check.ob('C18.R3', '%s::flow-registration-always-recorded' % rf_.key, ok_, rf_.where, why_, 'two economies with the same sector codes, each registering the same flow')
     check.floor('C18.R3', 8)
     check.floor('C18.R4', 2)
     check.floor('C18.R5', 1)
